@@ -83,3 +83,164 @@ Theorem C02_metadata_lists_order_irrelevant : forall l l',
   Permutation l l' -> key_inj l -> published_ops_view l = published_ops_view l'.
 Proof. exact (fun l l' Hp Hk => f_equal (fun x => map oid (dedup_cref [] x)) (sort_ops_perm_invariant l l' Hp Hk)). Qed.
 Print Assumptions C02_metadata_lists_order_irrelevant.
+
+From SV Require Import Resolve.Op Resolve.Apply Resolve.Process Resolve.Order Resolve.Chain Resolve.Inert Resolve.Prepare Resolve.Spec Resolve.Refine Resolve.Extend Resolve.Earliest.
+Local Close Scope Z_scope.
+
+(* whatever the resolution options (additional operations, version id, version time), the list handed to the core of Resolve has the published operations in chronological order followed by the unpublished ones (stores_ok: the operation store returns operations with a canonical reference, the unpublished store operations without) *)
+Theorem C02_prepared_list_in_processing_order :
+  forall (pub unpub : list aop) (opts : ropts) (rp ru fops : list aop),
+         stores_ok pub unpub -> prepare pub unpub opts = inr (rp, ru, fops) -> processing_order fops.
+Proof. exact prepare_processing_order. Qed.
+Print Assumptions C02_prepared_list_in_processing_order.
+
+(* every applied operation was applied at a point (applied_at): by the recovery or the update chain, in the state that is the fold of Apply over the create and the operations applied before it, with the commitments consumed earlier in that chain, competing with the recover/deactivate operations resp. with the updates that are unpublished or anchored after the replay point *)
+Theorem C02_applied_has_point :
+  forall (fops : list aop) (c0 : aop) (s : state) (ap : list aop) (o : aop),
+         resolve_core fops = inr (Some (c0, s, ap)) ->
+         In o ap ->
+         exists (sel : state -> Z) (st : state) (consumed : list Z) (comp : aop -> Prop),
+           applied_at c0 ap o sel st consumed comp.
+Proof. exact applied_has_point. Qed.
+Print Assumptions C02_applied_has_point.
+
+(* at its point an applied operation is eligible (reveals the commitment in force, commits to a different one not consumed before, Apply accepts it) and every competitor that precedes it in the prepared list is not eligible *)
+Theorem C02_applied_is_first_eligible :
+  forall (fops : list aop) (c0 : aop) (s : state) (ap : list aop) 
+           (o : aop) (sel : state -> Z) (st : state) (consumed : list Z) 
+           (comp : aop -> Prop),
+         resolve_core fops = inr (Some (c0, s, ap)) ->
+         applied_at c0 ap o sel st consumed comp ->
+         eligible sel st consumed o /\
+         comp o /\
+         (exists before after : list aop,
+            fops = before ++ o :: after /\
+            (forall q : aop, In q before -> comp q -> ~ eligible sel st consumed q)).
+Proof. exact applied_is_first_eligible. Qed.
+Print Assumptions C02_applied_is_first_eligible.
+
+(* the earliest anchored eligible operation wins: if q is a published competitor eligible at the point where o was applied, then o is published and q is not anchored before o *)
+Theorem C02_applied_is_earliest :
+  forall (fops : list aop) (c0 : aop) (s : state) (ap : list aop) 
+           (o : aop) (sel : state -> Z) (st : state) (consumed : list Z) 
+           (comp : aop -> Prop),
+         processing_order fops ->
+         resolve_core fops = inr (Some (c0, s, ap)) ->
+         applied_at c0 ap o sel st consumed comp ->
+         forall q : aop,
+         In q fops ->
+         comp q ->
+         published q = true -> eligible sel st consumed q -> published o = true /\ op_lt q o = false.
+Proof. exact applied_is_earliest. Qed.
+Print Assumptions C02_applied_is_earliest.
+
+(* with distinct anchoring coordinates the applied operation is strictly earlier than every other eligible published competitor *)
+Theorem C02_applied_is_strictly_earliest :
+  forall (fops : list aop) (c0 : aop) (s : state) (ap : list aop) 
+           (o : aop) (sel : state -> Z) (st : state) (consumed : list Z) 
+           (comp : aop -> Prop),
+         processing_order fops ->
+         key_inj fops ->
+         resolve_core fops = inr (Some (c0, s, ap)) ->
+         applied_at c0 ap o sel st consumed comp ->
+         forall q : aop,
+         In q fops ->
+         comp q -> published q = true -> eligible sel st consumed q -> q <> o -> op_lt o q = true.
+Proof. exact applied_is_strictly_earliest. Qed.
+Print Assumptions C02_applied_is_strictly_earliest.
+
+(* an unpublished operation is applied only when no published competitor is eligible at that point *)
+Theorem C02_published_preferred_to_unpublished :
+  forall (fops : list aop) (c0 : aop) (s : state) (ap : list aop) 
+           (o : aop) (sel : state -> Z) (st : state) (consumed : list Z) 
+           (comp : aop -> Prop),
+         processing_order fops ->
+         resolve_core fops = inr (Some (c0, s, ap)) ->
+         applied_at c0 ap o sel st consumed comp ->
+         published o = false ->
+         forall q : aop, In q fops -> comp q -> eligible sel st consumed q -> published q = false.
+Proof. exact published_preferred. Qed.
+Print Assumptions C02_published_preferred_to_unpublished.
+
+(* the three statements for resolve_full under any resolution options, competitors ranging over the list prepare returns *)
+Theorem C02_earliest_wins_resolve :
+  forall (pub unpub : list aop) (opts : ropts) (c0 : aop) (s : state) (ap : list aop),
+         stores_ok pub unpub ->
+         resolve_full pub unpub opts = inr (Some (c0, s, ap)) ->
+         exists rp ru fops : list aop,
+           prepare pub unpub opts = inr (rp, ru, fops) /\
+           (forall (o : aop) (sel : state -> Z) (st : state) (consumed : list Z) (comp : aop -> Prop),
+            applied_at c0 ap o sel st consumed comp ->
+            eligible sel st consumed o /\
+            (forall q : aop,
+             In q fops ->
+             comp q ->
+             eligible sel st consumed q ->
+             (published q = true -> published o = true /\ op_lt q o = false) /\
+             (published o = false -> published q = false))).
+Proof. exact earliest_wins_resolve. Qed.
+Print Assumptions C02_earliest_wins_resolve.
+
+(* the three statements for resolve_full without options, competitors ranging over everything the two stores hold *)
+Theorem C02_earliest_wins_store :
+  forall (pub unpub : list aop) (c0 : aop) (s : state) (ap : list aop),
+         stores_ok pub unpub ->
+         resolve_full pub unpub no_opts = inr (Some (c0, s, ap)) ->
+         forall (o : aop) (sel : state -> Z) (st : state) (consumed : list Z) (comp : aop -> Prop),
+         applied_at c0 ap o sel st consumed comp ->
+         eligible sel st consumed o /\
+         (forall q : aop,
+          In q (pub ++ unpub) ->
+          comp q ->
+          eligible sel st consumed q ->
+          (published q = true -> published o = true /\ op_lt q o = false) /\
+          (published o = false -> published q = false)).
+Proof. exact earliest_wins_store. Qed.
+Print Assumptions C02_earliest_wins_store.
+
+(* non-vacuity: a fork (three updates reveal the same commitment: anchored at (12,0), anchored at (11,5), unpublished with time 9) returned by the stores in arbitrary order *)
+Theorem C02_nonvacuous_fork_resolves :
+  resolve_full f_pub f_unp no_opts = inr (Some (f_create, f_state, [f_early; f_next42])).
+Proof. exact fork_resolves. Qed.
+Print Assumptions C02_nonvacuous_fork_resolves.
+
+(* the point at which the winner was applied *)
+Theorem C02_nonvacuous_fork_point :
+  applied_at f_create [f_early; f_next42] f_early upd f_s0 []
+           (fun q : aop => ty q = Update /\ after_replay_point f_create [f_early; f_next42] q = true).
+Proof. exact fork_point. Qed.
+Print Assumptions C02_nonvacuous_fork_point.
+
+(* the two losers are eligible at that point *)
+Theorem C02_nonvacuous_fork_competitors_eligible :
+  eligible upd f_s0 [] f_late /\ eligible upd f_s0 [] f_unpub.
+Proof. exact fork_competitors_eligible. Qed.
+Print Assumptions C02_nonvacuous_fork_competitors_eligible.
+
+(* earliest_wins_store instantiated on the fork *)
+Theorem C02_nonvacuous_fork_earliest_wins :
+  published f_early = true /\ op_lt f_late f_early = false.
+Proof. exact fork_earliest_wins. Qed.
+Print Assumptions C02_nonvacuous_fork_earliest_wins.
+
+(* preference, not exclusion: without anchored competitors the unpublished update is applied *)
+Theorem C02_nonvacuous_unpublished_applied_when_alone :
+  resolve_full [f_create] f_unp no_opts =
+         inr
+           (Some
+              (f_create,
+               {|
+                 doc := Some [101%Z; 104%Z];
+                 upd := 43;
+                 rec := 30;
+                 deact := false;
+                 last_t := 9;
+                 last_n := 0;
+                 created := 10;
+                 updated := 9;
+                 vid := 0;
+                 canon := 1;
+                 aorigin := 1
+               |}, [f_unpub])).
+Proof. exact unpublished_applied_when_alone. Qed.
+Print Assumptions C02_nonvacuous_unpublished_applied_when_alone.
